@@ -867,11 +867,12 @@ void PLSDiscriminantAnalysisStatistics(matrix *my_true,
   NewDVector(&y_score, my_true->row);
 
   for(lv = 0; lv < nlv; lv++){
+    /* a curve has one point per judged object plus its starting point */
     if(roc != NULL)
-      AddTensorMatrix(roc, my_true->row, my_true->col*2);
+      AddTensorMatrix(roc, my_true->row+1, my_true->col*2);
 
     if(precision_recall != NULL)
-      AddTensorMatrix(precision_recall, my_true->row, my_true->col*2);
+      AddTensorMatrix(precision_recall, my_true->row+1, my_true->col*2);
 
 
     initDVector(&auc_row);
@@ -891,15 +892,18 @@ void PLSDiscriminantAnalysisStatistics(matrix *my_true,
       DVectorAppend(auc_row, auc);
       DVectorAppend(ap_row, ap);
 
-      for(i = 0; i < my_true->row; i++){
+      /* objects with a missing truth give no point: pad with the end point */
+      for(i = 0; i < my_true->row+1; i++){
         if(roc != NULL){
-          roc->m[lv]->data[i][k] = roc_->data[i][0];
-          roc->m[lv]->data[i][k+1] = roc_->data[i][1];
+          size_t r = (i < roc_->row) ? i : roc_->row-1;
+          roc->m[lv]->data[i][k] = roc_->data[r][0];
+          roc->m[lv]->data[i][k+1] = roc_->data[r][1];
         }
 
         if(precision_recall != NULL){
-          precision_recall->m[lv]->data[i][k] = pr_->data[i][0];
-          precision_recall->m[lv]->data[i][k+1] = pr_->data[i][1];
+          size_t r = (i < pr_->row) ? i : pr_->row-1;
+          precision_recall->m[lv]->data[i][k] = pr_->data[r][0];
+          precision_recall->m[lv]->data[i][k+1] = pr_->data[r][1];
         }
       }
       k+=2;
